@@ -124,11 +124,12 @@ the SRT, WebVTT, SSA and STL reader loops). With the tag off `verifEmit` is an e
 
 %s
 
-39 changes were written by sub-agents in four batches; 38 break their property and all 38 are caught by the quick
-tier of the property they target; one (C06-c) turned out to be an equivalent change and is, correctly, not
-flagged. Eleven were missed or barely caught at first (C02-a, C04-a, C06-a, C13-b, C20-a, C02-b, C04-b, C05-b,
-C19-b, C20-b; C13-b by one event only); in each case the *generator* was widened (never the oracle), as the table
-says, and the earlier seeds were re-run afterwards.
+67 changes were written by sub-agents: 39 "plausible refactoring" seeds in four batches and 28 mutation-testing style
+changes (four per source file). 66 break their property and all 66 are caught by the quick tier of the property they
+target; one (C06-c) turned out to be an equivalent change and is, correctly, not flagged. Sixteen were missed or barely
+caught at first (C02-a, C04-a, C06-a, C13-b, C20-a, C02-b, C04-b, C05-b, C19-b, C20-b, M2-2, M2-4, M4-2, M4-3, M4-4;
+C13-b by one event only); in each case the *generator* was widened (never the oracle), as the tables say, and all
+earlier changes were re-run afterwards (`seedtool.sh runcopy`, a scratch worktree selected through `VERIF_REPO`).
 
 ### 10.7 Binding self-test
 
